@@ -137,3 +137,21 @@ def wide_cfg(rng):
     if not any(A == 'V0' and rhs for A, rhs in R):
         R.insert(0, ['V0', [[T[0], 'T'], ['V0', 'V'], [T[-1], 'T'], ['V0', 'V'], [T[0], 'T'], ['V0', 'V']]])
     return {'kind': 'cfg', 'V': V, 'Sigma': T, 'R': R, 'S': 'V0', 'eps': 'ε'}
+
+
+def cnf_shaped_cfg(rng):
+    """Every rule LOOKS like Chomsky normal form (A -> BC, A -> a, A -> epsilon) but the grammar is not in CNF: epsilon rules
+    on variables that occur on right-hand sides, the start variable on right-hand sides."""
+    g = abstract_cnf(rng, 2, 4, 2)
+    V = g['V']
+    R = [list(r) for r in g['R']]
+    for _ in range(rng.randint(1, 2)):
+        R.append([rng.choice(V[1:] or V), []])
+    if rng.random() < 0.5:
+        R.append([rng.choice(V), [[V[0], 'V'], [rng.choice(V), 'V']]])
+    seen, R2 = set(), []
+    for r in R:
+        if repr(r) not in seen:
+            seen.add(repr(r))
+            R2.append(r)
+    return {**g, 'R': R2}
